@@ -259,11 +259,15 @@ def rule_snap(r) -> tuple:
             tuple(id(c) for c in r.consequent.conclusions))
 
 
-def eval_error_tolerated(rule, blk) -> bool:
+def eval_error_tolerated(rule, blk, ex: BaseException | None = None) -> bool:
     """May evaluating this *loaded* rule legitimately raise ValueError / RuntimeError? Yes if a connective's operator
-    is missing in the block, or if a term it mentions computes from engine state (Function / Linear: unknown
-    variable names, wrong arity are configuration errors). Otherwise an accepted rule must evaluate."""
+    is missing in the block, if the error comes out of a term's own membership function (a term that was accepted but
+    is not usable as configured: empty Discrete, Linear arity, Function with an unknown variable), or if a term it
+    mentions computes from engine state. Otherwise an accepted rule must evaluate (the rule machinery itself must
+    not choke on what it accepted)."""
     if blk.conjunction is None or blk.disjunction is None:
+        return True
+    if ex is not None and _site(ex).startswith("term.py:"):
         return True
 
     def walk(node) -> bool:
@@ -511,7 +515,7 @@ class C16(Sim):
                                 rule.activate_with(blk.conjunction, blk.disjunction)
                                 rule.deactivate()
                             except (ValueError, RuntimeError) as ex:
-                                if eval_error_tolerated(rule, blk):
+                                if eval_error_tolerated(rule, blk, ex):
                                     st.hit("outcomes.accepted_rule_needs_missing_operator")
                                 else:
                                     v = Violation("accepted_rule_cannot_be_evaluated", i, text=text, exception=type(ex).__name__, message=str(ex)[:120])
@@ -572,7 +576,7 @@ class C16(Sim):
                             try:
                                 r2.activate_with(E.rule_blocks[bi].conjunction, E.rule_blocks[bi].disjunction)
                             except (ValueError, RuntimeError) as ex:
-                                if not eval_error_tolerated(r2, E.rule_blocks[bi]):
+                                if not eval_error_tolerated(r2, E.rule_blocks[bi], ex):
                                     v = Violation("accepted_rule_cannot_be_evaluated", i, text=text, exception=type(ex).__name__, via=op["via"])
                                     break
                             except Exception as ex:
@@ -638,7 +642,7 @@ class C16(Sim):
                         try:
                             r2.activate_with(b2.conjunction, b2.disjunction)
                         except (ValueError, RuntimeError) as ex:
-                            if eval_error_tolerated(r2, b2):
+                            if eval_error_tolerated(r2, b2, ex):
                                 st.hit("outcomes.loaded_rule_needs_missing_operator")
                             else:
                                 v = Violation("loaded_rule_cannot_be_evaluated", i, text=r2.text, exception=type(ex).__name__,
@@ -773,7 +777,7 @@ class C16(Sim):
                                     try:
                                         r2.activate_with(b2.conjunction, b2.disjunction)
                                     except (ValueError, RuntimeError) as ex:
-                                        if eval_error_tolerated(r2, b2):
+                                        if eval_error_tolerated(r2, b2, ex):
                                             st.hit("outcomes.imported_rule_needs_missing_operator")
                                         else:
                                             v = Violation("imported_rule_cannot_be_evaluated", i, text=r2.text, exception=type(ex).__name__,
